@@ -17,6 +17,17 @@ use std::sync::{mpsc, Arc, Mutex};
 use std::time::{Duration, Instant};
 
 pub const DEFAULT_SEED: u64 = 20240607;
+
+/// serde_json refuses documents nested deeper than 128 levels by default; scenarios (deep claims,
+/// long disclosure chains) and reports about them legitimately are.
+pub fn parse_json_unbounded(txt: &str) -> Result<Value, serde_json::Error> {
+    use serde::Deserialize;
+    let mut de = serde_json::Deserializer::from_str(txt);
+    de.disable_recursion_limit();
+    let v = Value::deserialize(&mut de)?;
+    de.end()?;
+    Ok(v)
+}
 const WATCHDOG_SECS: u64 = 60;
 
 pub fn base_seed() -> u64 {
@@ -73,7 +84,7 @@ impl Worker {
         let mut w = Worker { child, stdin, stdout, stderr_tail };
         let mut line = String::new();
         w.stdout.read_line(&mut line).map_err(|e| e.to_string())?;
-        let v: Value = serde_json::from_str(&line).map_err(|e| format!("worker hello: {} ({:?})", e, line))?;
+        let v: Value = parse_json_unbounded(&line).map_err(|e| format!("worker hello: {} ({:?})", e, line))?;
         if v.get("ready").is_none() {
             return Err(v["fatal"].as_str().unwrap_or("worker failed to start").to_string());
         }
@@ -92,7 +103,7 @@ impl Worker {
         match self.stdout.read_line(&mut line) {
             Ok(0) | Err(_) => self.died(),
             Ok(_) => {
-                let v: Result<Value, _> = serde_json::from_str(&line);
+                let v: Result<Value, _> = parse_json_unbounded(&line);
                 match v {
                     Ok(v) if v.get("fatal").is_some() => Reply::Fatal(v["fatal"].as_str().unwrap_or("").to_string()),
                     Ok(v) => match serde_json::from_value::<RunReport>(v) {
@@ -875,7 +886,7 @@ pub fn replay_main(args: &[String]) -> i32 {
             return 2;
         }
     };
-    let file: Value = match serde_json::from_str(&txt) {
+    let file: Value = match parse_json_unbounded(&txt) {
         Ok(v) => v,
         Err(e) => {
             println!("HARNESS-ERROR: {}: {}", path, e);
